@@ -156,6 +156,7 @@ func hx(b []byte) string {
 
 type xxxUnmarshaler interface{ XXX_Unmarshal([]byte) error }
 type xxxMarshaler interface {
+	XXX_Size() int
 	XXX_Marshal(b []byte, deterministic bool) ([]byte, error)
 }
 
@@ -191,6 +192,8 @@ func (t *Target) readBack(name string, m interface{}) (b []byte, err error) {
 	if t.Runtime == "gogo" {
 		tw := t.Messages[name].Twin()
 		isoCopy(reflect.ValueOf(tw).Elem(), reflect.ValueOf(m).Elem(), twinTypes(tw))
+		// the table-driven marshaler reads the nested sizes its size pass cached: XXX_Size must run first
+		tw.(xxxMarshaler).XXX_Size()
 		b, err := tw.(xxxMarshaler).XXX_Marshal(nil, true)
 		if err != nil && strings.Contains(err.Error(), "required field") {
 			return b, nil
